@@ -11,32 +11,17 @@ import LenaModel.Gen.C20Facts
             "exported":bool,"states":n,"closure":[modules]}  |  {"ok":false,"err":{..}}
   {"op":"call","e":entry,"m":module,"f":qualname,"line":n}
         -> {"r":[per reachable state of the entry: "ok" | {"kind":..,"name":..,..} | "not-callable"]}
+  any request may carry "tree": {"facts":{..},"names":[..],"ext":[..]} -- the facts of another tree (the harness's
+  self-test package, translated by the same translator), decoded here and run through the same definitions
   {"op":"findings"}                  -> {"findings":[{"entry":..,"module":..,"func":..,"line":..,"err":{..}}]}
 -/
 open Lean Lena.Drv Lena.C20
 
-def F : Facts := Gen.current
-
-def nameStr (n : Nat) : String := Gen.names.getD n s!"?{n}"
-def modStr (m : Nat) : String := match F.modOf m with | some M => nameStr M.name | none => s!"?mod{m}"
-
-def modIdOf (s : String) : Option Nat :=
-  (zipIdx F.mods 0).findSome? (fun (i, M) => if nameStr M.name == s then some i else none)
-
-def fnStr : Option Nat → Json
-  | none => Json.null
-  | some q => Json.str (nameStr q)
-
-def errJson : Err → Json
-  | .nameError m fn n => Json.mkObj [("kind", "NameError"), ("module", modStr m), ("func", fnStr fn), ("name", nameStr n)]
-  | .attrError m fn root on a => Json.mkObj [("kind", "AttributeError"), ("module", modStr m), ("func", fnStr fn),
-      ("root", nameStr root), ("on", modStr on), ("name", nameStr a)]
-  | .importError m fn src n => Json.mkObj [("kind", "ImportError"), ("module", modStr m), ("func", fnStr fn),
-      ("on", modStr src), ("name", nameStr n)]
-  | .noModule m fn n => Json.mkObj [("kind", "ModuleNotFoundError"), ("module", modStr m), ("func", fnStr fn),
-      ("name", nameStr n)]
-  | .outOfFuel => Json.mkObj [("kind", "outOfFuel")]
-  | .malformed => Json.mkObj [("kind", "malformed")]
+/-- a tree: its facts and the display strings -/
+structure Tree where
+  F : Facts
+  names : Array String
+  ext : Array String
 
 /-- the outcome of an entry's import: the state, or the lena error, or the absent third-party
 module whose `ImportError` escaped -/
@@ -45,79 +30,181 @@ inductive Imported where
   | err (e : Err)
   | ext (x : Nat)
 
-/-- per environment and entry: the outcome of the import and the states reachable by calls -/
-def entryTable : List (Nat × Nat × Imported × List State) :=
-  F.envs.flatMap (fun env =>
-    let G := F.withEnv env
-    F.entries.map (fun e =>
-      match importEntry G e with
-      | .ok (σ, none) => (env, e, .ok σ, reachStates G exploreBound [σ] [σ])
-      | .ok (_, some x) => (env, e, .ext x, [])
-      | .error err => (env, e, .err err, [])))
+def importedOf (G : Facts) (e : Nat) : Imported × List State :=
+  match importEntry G e with
+  | .ok (σ, none) => (.ok σ, reachStates G exploreBound [σ] [σ])
+  | .ok (_, some x) => (.ext x, [])
+  | .error err => (.err err, [])
 
-def entryOf (j : Json) : Option (Facts × Nat × Imported × List State) := do
+def repo : Tree := ⟨Gen.current, Gen.names, Gen.ext⟩
+
+/-- per environment and entry of the repository tree: the outcome of the import and the states
+reachable by calls (computed once) -/
+def entryTable : List (Nat × Nat × Imported × List State) :=
+  repo.F.envs.flatMap (fun env =>
+    repo.F.entries.map (fun e => let r := importedOf (repo.F.withEnv env) e; (env, e, r.1, r.2)))
+
+/-! ### decoding the facts of another tree -/
+
+def natList? (j : Json) : Option (List Nat) := do (← arr? j).toList.mapM nat?
+
+def ev? (j : Json) : Option Ev := do
+  let a ← arr? j
+  let k ← str? (a.getD 0 Json.null)
+  let n (i : Nat) : Option Nat := nat? (a.getD i Json.null)
+  match k with
+  | "bind" => return .bind (← n 1)
+  | "bindMod" => return .bindMod (← n 1) (← n 2)
+  | "unbind" => return .unbind (← n 1)
+  | "load" => return .load (← n 1)
+  | "attr" => return .attr (← n 1) (← natList? (a.getD 2 Json.null))
+  | "ensure" => return .ensure (← n 1)
+  | "from" => return .fromName (← n 1) (← n 2) (← n 3)
+  | "star" => return .star (← n 1)
+  | "nomodule" => return .noModule (← n 1)
+  | "enter" => return .enter
+  | "leave" => return .leave
+  | "ext" => return .ext (← n 1)
+  | "tryBegin" => return .tryBegin
+  | "tryExcept" => return .tryExcept
+  | "tryEnd" => return .tryEnd
+  | "gbind" => return .gbind (← n 1)
+  | "gunbind" => return .gunbind (← n 1)
+  | _ => none
+
+def evs? (j : Json) : Option (List Ev) := do (← arr? j).toList.mapM ev?
+
+def func? (j : Json) : Option Func := do
+  return ⟨← nat? (getD j "name_id"), ← nat? (getD j "line"), ← evs? (getD j "evs")⟩
+
+def module? (j : Json) : Option Lena.C20.Module := do
+  let parent := nat? (getD j "parent")
+  let all := natList? (getD j "all_ids")
+  let funcs ← (← arr? (getD j "funcs")).toList.mapM func?
+  return ⟨← nat? (getD j "name_id"), parent, ← nat? (getD j "short_id"), all, ← evs? (getD j "evs"),
+    funcs.filter (fun f => !f.evs.isEmpty)⟩
+
+def tree? (j : Json) : Option Tree := do
+  let fj := getD j "facts"
+  let mods ← (← arr? (getD fj "modules")).toList.mapM module?
+  let F : Facts := ⟨mods, ← natList? (getD fj "entries"), ← nat? (getD fj "n_builtins"),
+    ← natList? (getD fj "private"), ← nat? (getD fj "n_bindable"), ← nat? (getD fj "slot_bits"),
+    ← nat? (getD fj "venv_env"), ← natList? (getD fj "envs")⟩
+  let names ← (← arr? (getD fj "names")).toList.mapM str?
+  let ext ← (← arr? (getD fj "ext")).toList.mapM str?
+  return ⟨F, names.toArray, ext.toArray⟩
+
+/-! ### answers -/
+
+def nameStr (T : Tree) (n : Nat) : String := T.names.getD n s!"?{n}"
+def modStr (T : Tree) (m : Nat) : String :=
+  match T.F.modOf m with | some M => nameStr T M.name | none => s!"?mod{m}"
+
+def modIdOf (T : Tree) (s : String) : Option Nat :=
+  (zipIdx T.F.mods 0).findSome? (fun (i, M) => if nameStr T M.name == s then some i else none)
+
+def fnStr (T : Tree) : Option Nat → Json
+  | none => Json.null
+  | some q => Json.str (nameStr T q)
+
+def errJson (T : Tree) : Err → Json
+  | .nameError m fn n => Json.mkObj [("kind", "NameError"), ("module", modStr T m), ("func", fnStr T fn), ("name", nameStr T n)]
+  | .attrError m fn root on a => Json.mkObj [("kind", "AttributeError"), ("module", modStr T m), ("func", fnStr T fn),
+      ("root", nameStr T root), ("on", modStr T on), ("name", nameStr T a)]
+  | .importError m fn src n => Json.mkObj [("kind", "ImportError"), ("module", modStr T m), ("func", fnStr T fn),
+      ("on", modStr T src), ("name", nameStr T n)]
+  | .noModule m fn n => Json.mkObj [("kind", "ModuleNotFoundError"), ("module", modStr T m), ("func", fnStr T fn),
+      ("name", nameStr T n)]
+  | .outOfFuel => Json.mkObj [("kind", "outOfFuel")]
+  | .malformed => Json.mkObj [("kind", "malformed")]
+
+def extJson (T : Tree) (x : Nat) : Json :=
+  Json.mkObj [("kind", "ThirdPartyImportError"), ("name", T.ext.getD x s!"?ext{x}")]
+
+def valStr (T : Tree) : Val → String
+  | .obj => "opaque"
+  | .mod m => "mod:" ++ modStr T m
+
+/-- the tree a request is about, whether it is the repository's, and (environment, entry, outcome) -/
+def entryOf (j : Json) : Option (Tree × Nat × Imported × List State) := do
+  let other := tree? (getD j "tree")
+  let T := other.getD repo
   let s ← str? (getD j "e")
   let env ← nat? (getD j "env")
-  let e ← modIdOf s
-  let t ← entryTable.find? (fun t => t.1 == env && t.2.1 == e)
-  pure (F.withEnv env, t.2.1, t.2.2.1, t.2.2.2)
-
-def extJson (x : Nat) : Json :=
-  Json.mkObj [("kind", "ThirdPartyImportError"), ("name", Gen.ext.getD x s!"?ext{x}")]
-
-def valStr : Val → String
-  | .obj => "opaque"
-  | .mod m => "mod:" ++ modStr m
+  let e ← modIdOf T s
+  let TE : Tree := { T with F := T.F.withEnv env }
+  match other with
+  | some _ => let r := importedOf TE.F e; pure (TE, e, r.1, r.2)
+  | none =>
+    let t ← entryTable.find? (fun t => t.1 == env && t.2.1 == e)
+    pure (TE, t.2.1, t.2.2.1, t.2.2.2)
 
 def handle (j : Json) : Json :=
   match str? (getD j "op") with
   | some "meta" =>
-    Json.mkObj [("hash", Gen.sourceHash), ("modules", ofList (fun M => Json.str (nameStr M.name)) F.mods),
-      ("entries", ofList (fun e => Json.str (modStr e)) F.entries), ("layout", F.layoutOk),
-      ("ext", ofList Json.str Gen.ext.toList), ("envs", ofList ofNat F.envs),
-      ("resolvesAllEnvs", resolvesAllEnvs F)]
+    let T := (tree? (getD j "tree")).getD repo
+    let F := T.F
+    Json.mkObj [("hash", Gen.sourceHash), ("modules", ofList (fun M => Json.str (nameStr T M.name)) F.mods),
+      ("entries", ofList (fun e => Json.str (modStr T e)) F.entries), ("layout", F.layoutOk),
+      ("ext", ofList Json.str T.ext.toList), ("envs", ofList ofNat F.envs),
+      ("resolvesAllEnvs", resolvesAllEnvs F), ("closuresOk", closuresOk F)]
   | some "entry" =>
     match entryOf j with
     | none => err "unknown entry"
-    | some (_, _, .err e, _) => Json.mkObj [("ok", false), ("err", errJson e)]
-    | some (_, _, .ext x, _) => Json.mkObj [("ok", false), ("err", extJson x)]
-    | some (F, e, .ok σ, states) =>
+    | some (T, _, .err e, _) => Json.mkObj [("ok", false), ("err", errJson T e)]
+    | some (T, _, .ext x, _) => Json.mkObj [("ok", false), ("err", extJson T x)]
+    | some (T, e, .ok σ, states) =>
+      let F := T.F
       let loaded := loadedMods F σ
       Json.mkObj [("ok", true),
-        ("loaded", Json.mkObj (loaded.map (fun m => (modStr m, Json.str (match σ.statusOf m with | .done => "done" | .running => "running" | .absent => "absent" | .failed => "failed"))))),
-        ("ns", Json.mkObj (loaded.map (fun m => (modStr m, Json.mkObj ((boundIn F σ m).map (fun (n, v) => (nameStr n, Json.str (valStr v)))))))),
+        ("loaded", Json.mkObj (loaded.map (fun m => (modStr T m, Json.str (match σ.statusOf m with | .done => "done" | .running => "running" | .absent => "absent" | .failed => "failed"))))),
+        ("ns", Json.mkObj (loaded.map (fun m => (modStr T m, Json.mkObj ((boundIn F σ m).map (fun (n, v) => (nameStr T n, Json.str (valStr T v)))))))),
         ("exported", exportedB F e σ),
         ("states", ofNat states.length),
+        ("explore", Json.str (match explore F exploreBound [σ] [σ] with
+          | .closed seen => s!"closed:{seen.length}"
+          | .failed w => s!"failed:{modStr T w.mod}:{nameStr T w.func.name}"
+          | .bound => "bound")),
+        ("callables", ofNat (callables F σ).length),
+        ("attrInv", (loaded.all fun p => (boundIn F σ p).all fun (_, v) =>
+          match v with
+          | .mod c => σ.statusOf c != .absent
+          | .obj => true)),
         ("resolves", resolvesEntry F e),
-        ("closure", ofList (fun m => Json.str (modStr m)) (setToList F (importClosure F e))),
+        ("closure", ofList (fun m => Json.str (modStr T m)) (setToList F (importClosure F e))),
         ("closureClosed", closedSetB F (importClosure F e))]
   | some "call" =>
-    match entryOf j, (str? (getD j "m")).bind modIdOf, str? (getD j "f"), nat? (getD j "line") with
-    | some (F, _, .ok _, states), some m, some q, some line =>
-      match (F.modOf m).bind (fun M => M.funcs.find? (fun f => nameStr f.name == q && f.line == line)) with
-      | none => Json.mkObj [("r", Json.arr #[]), ("missing", true)]
-      | some f =>
-        Json.mkObj [("r", ofList (fun s =>
-          match s.statusOf m with
-          | .done => match callFn F m f s with
-            | .ok _ => Json.str "ok"
-            | .error e => errJson e
-          | _ => Json.str "not-callable") states)]
-    | some (_, _, .err e, _), _, _, _ => Json.mkObj [("r", Json.arr #[]), ("import", errJson e)]
-    | some (_, _, .ext x, _), _, _, _ => Json.mkObj [("r", Json.arr #[]), ("import", extJson x)]
-    | _, _, _, _ => err "bad call args"
+    match entryOf j with
+    | none => err "bad call args"
+    | some (T, _, .err e, _) => Json.mkObj [("r", Json.arr #[]), ("import", errJson T e)]
+    | some (T, _, .ext x, _) => Json.mkObj [("r", Json.arr #[]), ("import", extJson T x)]
+    | some (T, _, .ok _, states) =>
+      let F := T.F
+      match (str? (getD j "m")).bind (modIdOf T), str? (getD j "f"), nat? (getD j "line") with
+      | some m, some q, some line =>
+        match (F.modOf m).bind (fun M => M.funcs.find? (fun f => nameStr T f.name == q && f.line == line)) with
+        | none => Json.mkObj [("r", Json.arr #[]), ("missing", true)]
+        | some f =>
+          Json.mkObj [("r", ofList (fun s =>
+            match s.statusOf m with
+            | .done => match callFn F m f s with
+              | .ok _ => Json.str "ok"
+              | .error e => errJson T e
+            | _ => Json.str "not-callable") states)]
+      | _, _, _ => err "bad call args"
   | some "findings" =>
+    let T := (tree? (getD j "tree")).getD repo
     Json.mkObj [("findings", ofList (fun (ef : Nat × Finding) =>
       let fd := ef.2
-      Json.mkObj [("env", ofNat ef.1), ("entry", modStr fd.entry),
-        ("module", match fd.func with | some (m, _, _) => Json.str (modStr m) | none => Json.null),
-        ("func", match fd.func with | some (_, q, _) => Json.str (nameStr q) | none => Json.null),
+      Json.mkObj [("env", ofNat ef.1), ("entry", modStr T fd.entry),
+        ("module", match fd.func with | some (m, _, _) => Json.str (modStr T m) | none => Json.null),
+        ("func", match fd.func with | some (_, q, _) => Json.str (nameStr T q) | none => Json.null),
         ("line", match fd.func with | some (_, _, l) => ofNat l | none => Json.null),
         ("err", match fd.err, fd.ext with
-          | some e, _ => errJson e
-          | none, some x => extJson x
+          | some e, _ => errJson T e
+          | none, some x => extJson T x
           | none, none => Json.null)])
-      (F.envs.flatMap (fun env => (diagnose (F.withEnv env)).map (fun fd => (env, fd)))))]
+      (T.F.envs.flatMap (fun env => (diagnose (T.F.withEnv env)).map (fun fd => (env, fd)))))]
   | _ => err "unknown op"
 
 def main : IO Unit := run handle
